@@ -50,6 +50,7 @@ class ComponentType(enum.Enum):
 class ComponentSliver(BaseSliver):
 
     NAME_REGEX = r'^[\w\-_\.\ ]{2,255}$'
+    TYPE_CLASS = ComponentType
 
     def __init__(self):
         super().__init__()
